@@ -19,7 +19,7 @@ from . import verify, solve
 ROOT = os.path.dirname(os.path.dirname(os.path.abspath(__file__)))
 NATIVE_PY = "/venv/bin/python"
 
-CONTRACT_MODULES = ["numeric", "matchers", "wrappers"]
+CONTRACT_MODULES = ["numeric", "matchers", "wrappers", "bounded_matchers"]
 
 TRUSTED_BASE = [
     "T1 pyvc: the ast->SMT encoding of the Python subset (DESIGN 2.3); mitigated by canaries on every run",
@@ -97,7 +97,7 @@ def load_known():
 
 def match_known(oid, prop, known):
     for k in known:
-        if k.get("status") != "known" or k.get("property") != prop:
+        if k.get("status") != "known" or k.get("property") != prop or k.get("bounded"):
             continue
         pat = k.get("obligation", "")
         if pat.endswith("*"):
@@ -289,8 +289,8 @@ def summarise(prop, tier, R, results, bounded, wall, write=True, verbose=False):
                 k["witness"], "reproduces" if wit.get("reproduces") else "does NOT reproduce any more")))
         kf_printed.append({"obligation": pat, "what": k["what"], "failing_now": len(oids), "witness": wit})
     for k in known:
-        if k.get("status") == "known" and k.get("property") == prop and k["obligation"] not in known_hits \
-                and not k.get("bounded"):
+        if k.get("status") == "known" and k.get("property") == prop and not k.get("bounded") \
+                and k.get("obligation") not in known_hits:
             out_lines.append("NOTE: known finding no longer observed (stale entry): %s" % k["obligation"])
     viol_docs = []
     seen_oid = set()
